@@ -65,6 +65,14 @@ func genUDP(seed int64, i int) *UDPCase {
 		u.Need1 = min(u.Need1, rest, 6000)
 		u.Need2 = u.Need1 + r.Intn(min(rest, 6000)-u.Need1+1)
 	}
+	// What a matcher asks for has to fit into the matching buffer, which also still holds what earlier handlers of the
+	// connection consumed: beyond 8 KiB matching is abandoned and the association dropped, by design (C05).
+	if u.Take+u.Need2 > 8000 {
+		u.Need2 = max(0, 8000-u.Take)
+		if u.Need1 > u.Need2 {
+			u.Need1 = u.Need2
+		}
+	}
 	u.BufSize = []int{1, 7, 64, 512, 2048, 4096, 9000}[r.Intn(7)]
 	u.BurstAll = r.Intn(3) != 0
 	u.Clients = 1 + r.Intn(3)
